@@ -60,6 +60,14 @@ Proof.
   rewrite E1, E2, E3. rewrite app_nil_r. reflexivity.
 Qed.
 
+(* a token string is made of a run of pieces: it is the stretch of the text they span, or their texts joined by
+   single spaces, or - for a WITH pair - the three strings of its parts joined by single spaces *)
+Inductive made_of (O : oracle) (text : str) : str -> list piece -> Prop :=
+  | MSlice g : g <> [] -> made_of O text (slice text (pstart (hd dpiece g)) (pend (last g dpiece))) g
+  | MJoin g : made_of O text (join_sp (map ptext g)) g
+  | MWith a ga w gw b gb : made_of O text a ga -> made_of O text w gw -> made_of O text b gb ->
+      made_of O text (a ++ sp ++ strip O w ++ sp ++ b) (ga ++ gw ++ gb).
+
 (* ---- every token of the matcher owns a run of consecutive word pieces ---- *)
 Section Groups.
 Context {V : Type}.
@@ -105,7 +113,7 @@ Definition starts_word (t : tok) : Prop := exists c0 r, tstring t = c0 :: r /\ i
 (* a match owns exactly the word pieces whose words spell the stored name *)
 Lemma matched_group (t : tok) : In t (t_iter O tr text) ->
   exists sp v, tvalue t = Some v /\ grp t <> [] /\ get_out (lws O (grp t)) (outs tr) = Some (sp, v) /\
-               tstart t = pstart (hd dpiece (grp t)) /\ starts_word t.
+               tstart t = pstart (hd dpiece (grp t)) /\ starts_word t /\ made_of O text (tstring t) (grp t).
 Proof.
   intro H. pose proof (match_inside O tr W text t H) as [_ [_ [_ Hwf]]].
   apply (scan_exact O tr W text) in H as [pre [mid [post [sp [v [E [Hne [G ->]]]]]]]].
@@ -125,7 +133,10 @@ Proof.
     - exact Hne.
     - unfold inside. apply occ_start; exact Hne.
     - reflexivity. }
-  exists sp, v. rewrite Eg. split; [reflexivity|]. split; [exact Hne|]. split; [exact G|]. split; [apply occ_start; exact Hne | exact Hst].
+  exists sp, v. rewrite Eg. split; [reflexivity|]. split; [exact Hne|]. split; [exact G|]. split; [apply occ_start; exact Hne|].
+  split; [exact Hst|]. cbn [tstring occurrence_tok].
+  replace (match mid with [] => -1 | q :: _ => pstart q end) with (pstart (hd dpiece mid)) by (destruct mid; [contradiction | reflexivity]).
+  apply MSlice. exact Hne.
 Qed.
 
 (* an unmatched token owns its piece *)
@@ -141,15 +152,16 @@ Qed.
 (* what each token of Trie.tokenize stands for *)
 Definition tok_acc (t : tok) (g : list piece) : Prop :=
   match tvalue t with
-  | Some v => g <> [] /\ (exists sp, get_out (lws O g) (outs tr) = Some (sp, v)) /\ tstart t = pstart (hd dpiece g) /\ starts_word t
+  | Some v => g <> [] /\ (exists sp, get_out (lws O g) (outs tr) = Some (sp, v)) /\ tstart t = pstart (hd dpiece g) /\ starts_word t /\
+              made_of O text (tstring t) g
   | None => exists p, g = [p] /\ In p P /\ is_word_piece O p = true /\ t = unmatched p
   end.
 
 Theorem tokens_accounted : Forall (fun t => tok_acc t (grp t)) (t_tokenize O tr text).
 Proof.
   apply Forall_forall. intros t Ht. unfold t_tokenize in Ht. apply retok_from_word in Ht as [Hm|[p [Hp [Hw ->]]]].
-  - apply fo_sub in Hm. destruct (matched_group t Hm) as [sp [v [Ev [Hne [G [Hs Hw]]]]]].
-    unfold tok_acc. rewrite Ev. split; [exact Hne|]. split; [exists sp; exact G|]. split; [exact Hs | exact Hw].
+  - apply fo_sub in Hm. destruct (matched_group t Hm) as [sp [v [Ev [Hne [G [Hs [Hw Hmo]]]]]]].
+    unfold tok_acc. rewrite Ev. split; [exact Hne|]. split; [exists sp; exact G|]. split; [exact Hs|]. split; [exact Hw | exact Hmo].
   - unfold tok_acc. cbn [tvalue unmatched]. exists p. split; [apply unmatched_group; assumption|]. repeat split; assumption.
 Qed.
 
@@ -201,7 +213,7 @@ Qed.
 
 (* after the merger: a token stands for a stored name, or is a new symbol whose key is its words *)
 Definition tok_acc1 (t : ltok) (g : list piece) : Prop :=
-  g <> [] /\ tstart t = pstart (hd dpiece g) /\ starts_word O t /\
+  g <> [] /\ tstart t = pstart (hd dpiece g) /\ starts_word O t /\ made_of O text (tstring t) g /\
   match tvalue t with
   | Some v => (exists sp, get_out (lws O g) (outs tr) = Some (sp, v)) \/
               (exists sy, v = VSym sy /\ exc sy = false /\ key sy = join_sp (map ptext g) /\ Forall wordp g /\
@@ -235,9 +247,10 @@ Proof.
     destruct (mk_symbol O (join_sp (map ptext gu)) false) as [sy| | | | |] eqn:Em; try discriminate. cbn [obind] in Hf. inversion Hf; subst r.
     destruct (mk_symbol_words _ sy Hww Hne' Em) as [Hk He].
     exists [gu]. split; [|cbn; rewrite app_nil_r; reflexivity]. constructor; [|constructor].
-    unfold tok_acc1. cbn [tstart tvalue tstring]. split; [exact Hne|]. split; [|split].
+    unfold tok_acc1. cbn [tstart tvalue tstring]. split; [exact Hne|]. split; [|split; [|split]].
     + destruct ru as [|t0 l]; [contradiction | exact Hst].
     + destruct (join_words_head O (map ptext gu) Hww Hne') as [c0 [r0 [Ej Hc0]]]. exists c0, r0. cbn [tstring]. split; assumption.
+    + apply MJoin.
     + right. exists sy. repeat split; assumption.
 Qed.
 
@@ -256,7 +269,8 @@ Proof.
       destruct (IH gs0 [] [] post HF' pending_nil Eb) as [g2 [F2 E2]].
       exists (g1 ++ g :: g2). split.
       * apply Forall2_app; [exact F1|]. constructor; [|exact F2].
-        destruct Ht as [Hne [Hg [Hs Hsw]]]. unfold tok_acc1. rewrite Ev. split; [exact Hne|]. split; [exact Hs|]. split; [exact Hsw | left; exact Hg].
+        destruct Ht as [Hne [Hg [Hs [Hsw Hmo]]]]. unfold tok_acc1. rewrite Ev. split; [exact Hne|]. split; [exact Hs|]. split; [exact Hsw|].
+        split; [exact Hmo | left; exact Hg].
       * rewrite concat_app. cbn [concat]. rewrite E1, E2. reflexivity.
     + destruct Ht as [p [-> [HpP [Hw ->]]]].
       assert (Hnb : tok_blank O (unmatched p : ltok) = false).
@@ -297,11 +311,11 @@ Variable A_kw : kw -> list piece -> Prop.
 Variable A_sym : sym -> list piece -> Prop.
 
 Definition vtok_acc (t : ltok) (g : list piece) : Prop :=
-  g <> [] /\ tstart t = pstart (hd dpiece g) /\
+  g <> [] /\ tstart t = pstart (hd dpiece g) /\ made_of O text (tstring t) g /\
   match tvalue t with Some (VKw k) => A_kw k g | Some (VSym s) => A_sym s g | None => False end.
 
 Definition ptok_acc (p : ptok) (g : list piece) : Prop :=
-  g <> [] /\ ppos p = pstart (hd dpiece g) /\
+  g <> [] /\ ppos p = pstart (hd dpiece g) /\ made_of O text (pstr p) g /\
   match pt p with
   | TA => A_kw KAnd g | TO => A_kw KOr g | TL => A_kw KLp g | TR => A_kw KRp g
   | TS (Plain s) => A_sym s g
@@ -322,24 +336,24 @@ Proof.
     (* one token taken *)
     assert (One : replace_with O strict (G1 a :: greedy rest) = Ok ptoks ->
                   exists gs', Forall2 ptok_acc ptoks gs' /\ concat gs' = concat (ga :: gs0)).
-    { cbn [replace_with]. intro H1. destruct Ha as [Hne [Hs Hv]]. destruct (tvalue a) as [[k|s]|] eqn:Ev; [| |discriminate].
+    { cbn [replace_with]. intro H1. destruct Ha as [Hne [Hs [Hmo Hv]]]. destruct (tvalue a) as [[k|s]|] eqn:Ev; [| |discriminate].
       - destruct (tk_of_kw k) as [ty|] eqn:Ek; [|discriminate].
         destruct (replace_with O strict (greedy rest)) as [r0| | | | |] eqn:Er; try discriminate. cbn [obind] in H1. inversion H1; subst ptoks.
         destruct (IH rest gs0 r0 ltac:(simpl in Hl; lia) HF0 Er) as [g' [F' E']].
         exists (ga :: g'). split; [|cbn [concat]; rewrite E'; reflexivity]. constructor; [|exact F'].
-        unfold ptok_acc. cbn [pt ppos]. split; [exact Hne|]. split; [exact Hs|].
+        unfold ptok_acc. cbn [pt ppos pstr]. split; [exact Hne|]. split; [exact Hs|]. split; [exact Hmo|].
         destruct k; inversion Ek; subst; exact Hv.
       - destruct (strict && exc s); [discriminate|].
         destruct (replace_with O strict (greedy rest)) as [r0| | | | |] eqn:Er; try discriminate. cbn [obind] in H1. inversion H1; subst ptoks.
         destruct (IH rest gs0 r0 ltac:(simpl in Hl; lia) HF0 Er) as [g' [F' E']].
         exists (ga :: g'). split; [|cbn [concat]; rewrite E'; reflexivity]. constructor; [|exact F'].
-        unfold ptok_acc. cbn [pt ppos]. split; [exact Hne|]. split; [exact Hs | exact Hv]. }
+        unfold ptok_acc. cbn [pt ppos pstr]. split; [exact Hne|]. split; [exact Hs|]. split; [exact Hmo | exact Hv]. }
     cbn [greedy] in Hr. destruct rest as [|w [|b rest']]; [apply One; exact Hr | apply One; exact Hr |].
     destruct (is_with3 a w b) eqn:E3; [|apply One; exact Hr].
     inversion HF0 as [|? gw ? gs1 Hw HF1]; subst. inversion HF1 as [|? gb ? gs2 Hb HF2]; subst.
     cbn [replace_with] in Hr.
     unfold is_with3, is_sym_tok, is_with_tok in E3.
-    destruct Ha as [Hne [Hs Hva]]. destruct Hw as [_ [_ Hvw]]. destruct Hb as [_ [_ Hvb]].
+    destruct Ha as [Hne [Hs [Hmoa Hva]]]. destruct Hw as [_ [_ [Hmow Hvw]]]. destruct Hb as [_ [_ [Hmob Hvb]]].
     destruct (tvalue a) as [[ka|l]|] eqn:Eva; try discriminate.
     destruct (tvalue w) as [[[]|sw]|] eqn:Evw; try discriminate.
     destruct (tvalue b) as [[kb|r]|] eqn:Evb; try discriminate.
@@ -348,8 +362,8 @@ Proof.
     destruct (IH rest' gs2 r0 ltac:(simpl in Hl; lia) HF2 Er) as [g' [F' E']].
     exists ((ga ++ gw ++ gb) :: g'). split.
     + constructor; [|exact F'].
-      unfold ptok_acc. cbn [pt ppos]. split; [destruct ga; [contradiction | discriminate]|].
-      split; [rewrite hd_app_ne by exact Hne; exact Hs|]. exists ga, gw, gb. repeat split; assumption.
+      unfold ptok_acc. cbn [pt ppos pstr]. split; [destruct ga; [contradiction | discriminate]|].
+      split; [rewrite hd_app_ne by exact Hne; exact Hs|]. split; [apply MWith; assumption|]. exists ga, gw, gb. repeat split; assumption.
     + cbn [concat]. rewrite E'. rewrite <- !app_assoc. reflexivity.
 Qed.
 
@@ -395,7 +409,7 @@ Qed.
 
 Lemma tok_acc1_vtok t g : tok_acc1 t g -> vtok_acc kw_acc sym_acc t g.
 Proof.
-  intros [Hne [Hs [_ Hv]]]. split; [exact Hne|]. split; [exact Hs|].
+  intros [Hne [Hs [_ [Hmo Hv]]]]. split; [exact Hne|]. split; [exact Hs|]. split; [exact Hmo|].
   destruct (tvalue t) as [[k|s]|]; [| |exact Hv].
   - destruct Hv as [[sp G]|[sy [E _]]]; [apply (value_kw g sp k G) | discriminate].
   - destruct Hv as [[sp G]|[sy [E [He [Hk [Hw _]]]]]]; [apply (value_sym g sp s G)|].
@@ -448,7 +462,7 @@ Lemma simple_token_acc p t : In p P -> is_word_piece O p = true -> simple_token 
 Proof.
   intros Hp Hw. unfold simple_token. destruct (piece_cls O p) eqn:Ec.
   - unfold is_word_piece in Hw. rewrite Ec in Hw. discriminate.
-  - intro H. inversion H; subst t. split; [discriminate|]. split; [reflexivity|]. cbn [tvalue].
+  - intro H. inversion H; subst t. split; [discriminate|]. split; [reflexivity|]. split; [exact (MJoin O text [p])|]. cbn [tvalue].
     exists p. split; [reflexivity|]. right.
     destruct (piece_cls_spec O text p Hp) as [Hall Hlen]. specialize (Hlen Ec).
     destruct (ptext p) as [|c [|c2 r]] eqn:Et; try discriminate.
@@ -457,20 +471,20 @@ Proof.
       destruct (is_space O c); [discriminate|]. destruct (is_paren c); [reflexivity | discriminate]. }
     unfold is_paren, c_lpar, c_rpar in Hcp. apply orb_true_iff in Hcp as [H1|H1]; apply N.eqb_eq in H1; subst c; reflexivity.
   - destruct (str_eqb (lower O (ptext p)) s_and) eqn:E1.
-    { intro H. inversion H; subst t. split; [discriminate|]. split; [reflexivity|]. cbn [tvalue].
+    { intro H. inversion H; subst t. split; [discriminate|]. split; [reflexivity|]. split; [exact (MJoin O text [p])|]. cbn [tvalue].
       exists p. split; [reflexivity|]. left. apply str_eqb_eq. exact E1. }
     destruct (str_eqb (lower O (ptext p)) s_or) eqn:E2.
-    { intro H. inversion H; subst t. split; [discriminate|]. split; [reflexivity|]. cbn [tvalue].
+    { intro H. inversion H; subst t. split; [discriminate|]. split; [reflexivity|]. split; [exact (MJoin O text [p])|]. cbn [tvalue].
       exists p. split; [reflexivity|]. left. apply str_eqb_eq. exact E2. }
     destruct (str_eqb (lower O (ptext p)) s_with) eqn:E3.
-    { intro H. inversion H; subst t. split; [discriminate|]. split; [reflexivity|]. cbn [tvalue].
+    { intro H. inversion H; subst t. split; [discriminate|]. split; [reflexivity|]. split; [exact (MJoin O text [p])|]. cbn [tvalue].
       exists p. split; [reflexivity|]. left. apply str_eqb_eq. exact E3. }
     destruct (lookup_lower O T (lower O (ptext p))) as [s|] eqn:El.
-    + intro H. inversion H; subst t. split; [discriminate|]. split; [reflexivity|]. cbn [tvalue].
+    + intro H. inversion H; subst t. split; [discriminate|]. split; [reflexivity|]. split; [exact (MJoin O text [p])|]. cbn [tvalue].
       exists p. split; [reflexivity|]. left. destruct (lookup_lower_in T _ s El) as [e [He [Hs Hl]]].
       exists e. repeat split; try assumption. symmetry; exact Hl.
     + destruct (mk_symbol O (ptext p) false) as [sy| | | | |] eqn:Em; cbn [obind]; try discriminate.
-      intro H. inversion H; subst t. split; [discriminate|]. split; [reflexivity|]. cbn [tvalue].
+      intro H. inversion H; subst t. split; [discriminate|]. split; [reflexivity|]. split; [exact (MJoin O text [p])|]. cbn [tvalue].
       exists p. split; [reflexivity|]. right.
       assert (Hww : Forall (word O) [ptext p]) by (constructor; [apply wordp_word; split; assumption | constructor]).
       destruct (mk_symbol_words [ptext p] sy Hww ltac:(discriminate) Em) as [Hk He]. split; [exact He | exact Hk].
